@@ -61,6 +61,7 @@ type HarnessRun struct {
 	loopMax      int
 	funcs        map[string]bool
 	covers       map[string]int
+	expected     map[string]bool
 	called       map[string]int
 	findings     map[string]*finding
 	unsupMsgs    map[string]int
@@ -348,6 +349,9 @@ func (r *Run) runPath(w *Worker, it workItem) (more [][]uint64) {
 	}
 	for c := range m.covers {
 		hr.covers[c]++
+	}
+	for _, e := range m.expects {
+		hr.expected[e] = true
 	}
 	for c := range m.called {
 		hr.called[c]++
